@@ -1,5 +1,6 @@
 """C20 - passwords never reach the logs."""
 import asyncio
+import itertools
 import json
 import logging
 import random
@@ -7,7 +8,7 @@ import re
 
 import aioftp
 
-from harness import clientdrv, corecheck, gen, judge, report, simnet
+from harness import clientdrv, corecheck, gen, judge, report, simnet, tlc
 from harness import world as W
 
 PASSWORDS = {
@@ -177,6 +178,10 @@ def one_run(args):
         return {"crash": out["crash"] or out["hang"]}
     if out["exc"]:
         return {"crash": repr(out["exc"])}
+    return dict(tokenise(cap, pw), observed=observed.get("o", "none"), sentlen=sent.get("n", 0))
+
+
+def tokenise(cap, pw):
     recs = []
     for name, msg in cap.records:
         toks, stars = [], []
@@ -194,8 +199,34 @@ def one_run(args):
         recs.append({"logger": name, "toks": toks, "stars": stars})
     # (peer port numbers carry nothing; with two connections in a run the order in which they are torn down at the end is not fixed)
     norm = lambda m: re.sub(r"(127\.0\.0\.1|::1)[: ]\d{4,5}", r"\1:<port>", m)
-    return {"crash": None, "records": recs, "msgs": [[n, norm(m)] for n, m in cap.records], "observed": observed.get("o", "none"),
-            "sentlen": sent.get("n", 0)}
+    return {"crash": None, "records": recs, "msgs": [[n, norm(m)] for n, m in cap.records]}
+
+
+def scripted_run(args):
+    """Client.login against a server that is not aioftp: it asks for password and account in any order, any number of times
+    (331 / 332 in every sequence of up to three), then accepts, refuses, asks for something unknown or hangs up."""
+    pw, seq, final = args
+    from harness import clientproto as cp
+    cap = Cap()
+    root = logging.getLogger()
+    olds = (root.level, logging.getLogger("aioftp.client").level)
+    root.addHandler(cap)
+    root.setLevel(logging.DEBUG)
+    logging.getLogger("aioftp.client").setLevel(logging.DEBUG)
+    plan = [[["r", 220, "plain"]]] + [[["r", c, "plain"]] for c in seq] + [[["eof"]] if final == "eof" else [["r", final, "plain"]]]
+    cp.LOGIN[:] = ["u1", pw, "acc-7"]
+    try:
+        out = cp.run_scenario({"plan": plan, "calls": [["connect", cp.arg()], ["login", cp.arg()]]})
+    finally:
+        cp.LOGIN[:] = ["u", "p", "a"]
+        root.removeHandler(cap)
+        root.setLevel(olds[0])
+        logging.getLogger("aioftp.client").setLevel(olds[1])
+    if out["crash"]:
+        return {"crash": out["crash"]}
+    sent = [e["v"] for e in out["trace"] if e["ev"] == "Send"]
+    want = ["USER"] + ["PASS" if c == 331 else "ACCT" for c in seq]
+    return dict(tokenise(cap, pw), observed="scripted" if sent == want else "?" + " ".join(sent), sentlen=len(pw), trace=out["trace"])
 
 
 def run(tier, seed):
@@ -230,6 +261,34 @@ def run(tier, seed):
         cases.append({"records": a["records"], "pwlen": len(pw), "sentlen": a["sentlen"], "msgs": a["msgs"], "twin_msgs": b["msgs"],
                       "outcome": outcome if not (via and outcome == "out-of-sequence") else outcome, "observed": a["observed"]})
     chk.cov["evaluations"] += len(jobs)
+    # the client alone, against scripted servers: every order of password and account requests
+    splan = []
+    for cls, (pw, twin) in PASSWORDS.items():
+        for n in (1, 2, 3):
+            for seq in itertools.product((331, 332), repeat=n):
+                if 331 not in seq:
+                    continue
+                for final in ((230, 530, 333, "eof") if tier != "quick" or n < 3 else (rng.choice((230, 530, 333, "eof")),)):
+                    splan.append((cls, pw, twin, seq, final))
+    sres = corecheck.pool().map(scripted_run, [(x, seq, final) for cls, pw, twin, seq, final in splan for x in (pw, twin)], chunksize=8)
+    straces = []
+    for k, (cls, pw, twin, seq, final) in enumerate(splan):
+        a, b = sres[2 * k], sres[2 * k + 1]
+        if a["crash"] or b["crash"]:
+            raise RuntimeError("harness failure: %s" % (a["crash"] or b["crash"]))
+        plan.append((cls, pw, twin, "PASS", "scripted", True, "%s-%s" % ("-".join(map(str, seq)), final)))
+        cases.append({"records": a["records"], "pwlen": len(pw), "sentlen": a["sentlen"], "msgs": a["msgs"], "twin_msgs": b["msgs"],
+                      "outcome": "scripted", "observed": a["observed"]})
+        straces.append([{k2: v for k2, v in e.items() if k2 != "exc"} for e in a["trace"]])
+    chk.cov["evaluations"] += 2 * len(splan)
+    # ... each of these executions is a behaviour of the client protocol model as well
+    vres, tot = tlc.validate_plain("TraceClientProto", straces, procs=14, chunk=250)
+    chk.add_tlc(tot)
+    for i in sorted(vres):
+        m, n = vres[i]
+        if m < n:
+            chk.violation({"at": "client-protocol", "event": straces[i][m]["ev"] if m < len(straces[i]) else "end"},
+                          {"matched": m, "length": n, "trace": straces[i][:30]}, {"scripted": list(splan[i][3:])})
     bad = judge.judge("LoginLog", cases, chk)
     for i in sorted(bad):
         cls, pw, twin, sp, outcome, via, after = plan[i]
@@ -240,7 +299,9 @@ def run(tier, seed):
     chk.cov["traces_validated_against_impl"] = len(cases)
     chk.cov["rule"] = ("password classes (plain, inner spaces, leading blank, non-ASCII, one character, %%s/%%d/{} directives, percent "
                        "signs, braces, long, stars, command look-alike) x login outcomes (accepted, rejected, out of sequence, after login) x "
-                       "the real Client.login and the raw wire with verb spellings PASS/pass/PaSs/pAsS; all records of root, aioftp.client "
+                       "the real Client.login and the raw wire with verb spellings PASS/pass/PaSs/pAsS, plus Client.login against scripted servers "
+                       "that ask for password and account in every order (331/332 sequences of up to three, then 230/530/333/eof), those "
+                       "executions also validated against ClientProto; all records of root, aioftp.client "
                        "and aioftp.server at DEBUG are tokenised and judged by LoginLog.tla in TLC (no record contains the password, star "
                        "runs have the password's length, a twin run with another password of equal length logs identical text); "
                        "distinct = (class, spelling, outcome, path) tuples")
